@@ -64,7 +64,7 @@ def run_children(jobs, nproc=14):
 
 
 # ----------------------------------------------------------------------------- generation
-def gen_fan_model(rng: random.Random, clock: str):
+def gen_fan_model(rng: random.Random, clock: str, with_pre: bool = False):
     """Active handlers reschedule themselves with a drawn positive delay and fire event types; listeners schedule
     only leaf handlers (which observe / cancel), so every run is finite.  Listener l has a level lv[l]: it is only
     ever subscribed to types <= lv[l] and only fires types > lv[l] (no recursion)."""
@@ -163,8 +163,26 @@ def gen_fan_model(rng: random.Random, clock: str):
         key += 1
     if rng.random() < 0.3:
         stats.append([key, c06.KIND_OF_SID[sids[0]], sids[0]])
-    return {"prog": prog, "lst": lst, "subs": subs, "stats": stats, "streams": streams,
-            "stream_mode": rng.choice(["new", "setseed"])}
+    model = {"prog": prog, "lst": lst, "subs": subs, "stats": stats, "streams": streams,
+             "stream_mode": rng.choice(["new", "setseed"])}
+    if with_pre:
+        # SimEvent objects built before initialize() (some even before the unrelated prior activity of the process)
+        # and handed to schedule_event(event) from construct_model / handlers; they tie in time and priority with
+        # ordinarily scheduled events, so only the rank of their ids decides
+        pre = []
+        for j in range(rng.randint(2, 4)):
+            pre.append([u * rng.randint(8, 16), rng.choice([5, 5, 5, rng.choice(S.PRIOS)]), rng.choice(leaf + [rng.choice(leaf)]),
+                        rng.choice(["early", "late"])])
+            if rng.random() < 0.5:
+                prog[0].insert(rng.randint(0, len(prog[0])), ["schedpre", j])
+            else:
+                h = rng.randint(1, n_act)
+                prog[h].insert(rng.randint(0, len(prog[h])), ["schedpre", j])
+        # ordinary events at the same times and priority 5, scheduled in construct_model after / before them
+        for pe in pre[:2]:
+            prog[0].insert(rng.randint(0, len(prog[0])), ["sched", ["abs", pe[0]], pe[1], rng.choice(leaf)])
+        model["pre"] = pre
+    return model
 
 
 PRIORS = [
@@ -288,7 +306,7 @@ def main(tier: str) -> int:
             programs.append((ent["clock"], ent["model"], ent.get("seed", 1)))
     for i in range(n_prog):
         clock = clocks[i % len(clocks)]
-        programs.append((clock, gen_fan_model(rng, clock), rng.randint(0, 10 ** 9)))
+        programs.append((clock, gen_fan_model(rng, clock, with_pre=(i % 2 == 1)), rng.randint(0, 10 ** 9)))
     jobs = []
     index = []
     for pi, (clock, model, vseed) in enumerate(programs):
